@@ -139,6 +139,8 @@ type Interp struct {
 	sessInt    *Session
 	guard      *Term // non-nil while executing an if-converted region
 	noIfConv   bool
+	facts      *facts
+	factHits   int
 	qs         SolverStats
 	lastModels []Model
 	cacheHits  int
@@ -170,6 +172,7 @@ func NewInterp(prog *ssa.Program, hpkg *ssa.Package, cfg *Config, ex *Explorer) 
 	in.side = map[*Cell]interface{}{}
 	in.nondetSeq = map[string]int{}
 	in.covers = map[string]bool{}
+	in.facts = newFacts()
 	return in
 }
 
